@@ -582,9 +582,29 @@ fn run_t<T: Elem>(pid: &str, case: &RingCase, focus: Focus, ctx: &mut Ctx) {
                     let k = fill.resolve(w.len(), to_wrap);
                     let n = commit.resolve(k, to_wrap);
                     {
-                        let s = w.slice();
-                        for (i, slot) in s.iter_mut().enumerate().take(k) {
-                            *slot = if i < n { T::make(ctr + i as u64) } else { T::make(0xffff_0000_0000 + i as u64) };
+                        let value = |i: usize| if i < n { T::make(ctr + i as u64) } else { T::make(0xffff_0000_0000 + i as u64) };
+                        // three ways to fill a window: through the slice, and through the two
+                        // fill shortcuts - with an iterator that knows its length and with one
+                        // that does not (a filter adaptor: size hint (0, Some(k)))
+                        match (opi + k) % 4 {
+                            0 => {
+                                w.fill_from_iter((0..k).map(value));
+                                ctx.class("fill_from_iter (exact size)");
+                            }
+                            1 => {
+                                w.fill_from_iter((0..k).filter(|i| *i < usize::MAX).map(value));
+                                ctx.class("fill_from_iter (size unknown)");
+                            }
+                            2 => {
+                                let v: Vec<T> = (0..k).map(value).collect();
+                                w.fill_from_slice(&v);
+                            }
+                            _ => {
+                                let s = w.slice();
+                                for (i, slot) in s.iter_mut().enumerate().take(k) {
+                                    *slot = value(i);
+                                }
+                            }
                         }
                     }
                     let mut per: Vec<Vec<MTag>> = vec![Vec::new(); n];
